@@ -244,6 +244,12 @@ def _grid(rng, x, dx, pattern):
     if pattern == 'outside':
         return [x[-1] + dx * (rng.uniform(2, 50) + j) for j in range(rng.randrange(3, 30))] if rng.random() < 0.5 else \
                [x[0] - dx * (rng.uniform(2, 50) + j) for j in range(rng.randrange(3, 30))][::-1]
+    if pattern.startswith('tail:'):
+        _, k, off = pattern.split(':')
+        return [x[n - int(k)] + dx * (float(off) + j) for j in range(rng.randrange(4, 20))]
+    if pattern.startswith('head:'):
+        _, k, off = pattern.split(':')
+        return [x[int(k) - 1] - dx * (float(off) + j) for j in range(rng.randrange(4, 20))][::-1]
     if pattern == 'tail':
         # only the first one or two pixels overlap the end of the data
         k = rng.choice([1, 2, 3, 3])
@@ -1043,6 +1049,11 @@ def _directed(rng):
     for me in METHODS:
         for gp in ('tail', 'tail', 'tail', 'head', 'head'):
             cases.append(_case(rng, kind='1d', method=me, gridp=gp, zerop=rng.choice(['none', 'none', 'singles'])))
+    for k in (1, 2, 3, 4, 5):
+        for off in (0.2, 0.5, 0.8):
+            cases.append(_case(rng, kind='1d', method='damp', gridp='tail:%d:%s' % (k, off), zerop='none', fluxp=rng.choice(['smooth', 'const']),
+                               ivp=rng.choice(['flat', 'none'])))
+            cases.append(_case(rng, kind='1d', method='damp', gridp='head:%d:%s' % (k, off), zerop='none', fluxp=rng.choice(['smooth', 'const'])))
         cases.append(_case(rng, kind='1d', method=me, gridp='tailfine', zerop='none'))
     cases.append(_case(rng, kind='1d', fluxp='smooth', zerop='none', gridp='same', method=None, ivp='flat'))
     cases.append(_case(rng, kind='1d', fluxp='smooth', zerop='none', gridp='same', method=None, ivp='none'))
